@@ -161,7 +161,7 @@ def check(run):
         if n['k'] == 'call' and n.get('opc') == '=' and 'connection_refused' in q.render(ic, n):
             refs += 1
             rets = [r for r in q.returns(ic)]
-            nxt = [r for r in rets if ic.cfg.node_block(r) == ic.cfg.node_block(n)]
+            nxt = [r for r in rets if q.paired(ic, n, r)]
             run.check(bool(nxt) and all('shared_ptr{}' in q.render(ic, r.get('e')).replace(' ', '') or 'channel' in q.render(ic, r.get('e')) for r in nxt), 'R5', 'refused-returns-null',
                       '%s: refusal #%d' % (S + '::internal_connect', refs), ic.loc(n), 'connection_refused is assigned without returning an empty channel', 'returns an empty channel')
     # both ways of not finding a listener end in connection_refused, however the tests are nested or merged: evaluated
